@@ -122,6 +122,6 @@ class SceneDriver:
                 raise Divergence(where + ': times of signal %d' % k, (float(tw[0]), len(tw)), (float(tg[0]), len(tg)))
             scale = max(float(np.max(np.abs(vw))), 1e-300)
             err = float(np.max(np.abs(vg - vw)))
-            if err > 1e-9 * scale:
+            if not (err <= 1e-9 * scale):
                 i = int(np.argmax(np.abs(vg - vw)))
                 raise Divergence(where + ': signal %d, sample %d' % (k, i), float(vw[i]), float(vg[i]))
